@@ -2,6 +2,7 @@ package mem
 
 import (
 	"context"
+	"errors"
 	"net"
 	"sync"
 	"time"
@@ -10,7 +11,9 @@ import (
 	coapNet "github.com/plgd-dev/go-coap/v3/net"
 	"github.com/plgd-dev/go-coap/v3/tcp"
 	"github.com/plgd-dev/go-coap/v3/tcp/client"
+	"github.com/plgd-dev/go-coap/v3/options"
 	"github.com/plgd-dev/go-coap/v3/tcp/coder"
+	tcpserver "github.com/plgd-dev/go-coap/v3/tcp/server"
 )
 
 // TCPPeer is the harness end of a net.Pipe whose other end carries a real tcp/client.Conn.
@@ -184,3 +187,42 @@ func (l *Listener) Close() error {
 	l.once.Do(func() { close(l.closed) })
 	return nil
 }
+
+// NewTCPConnViaServer builds the connection the way a stream server does: a real tcp.Server (configured through the
+// given options only) serves an in-memory listener, one net.Pipe connection is pushed and accepted; returned are the
+// server-side connection (from OnNewConn), the harness end of the pipe and a stop function.  The periodic runner is a
+// no-op unless the options say otherwise (put options.WithPeriodicRunner last to override).
+func NewTCPConnViaServer(remote string, opts ...tcpserver.Option) (*client.Conn, *TCPPeer, func(), error) {
+	ch := make(chan *client.Conn, 1)
+	all := []tcpserver.Option{
+		options.WithErrors(func(error) {}),
+		options.WithMessagePool(pool.New(64, 2048)),
+		options.WithPeriodicRunner(func(func(now time.Time) bool) {}),
+	}
+	all = append(all, opts...)
+	all = append(all, options.WithOnNewConn(func(cc *client.Conn) { ch <- cc }))
+	s := tcp.NewServer(all...)
+	l := NewListener()
+	served := make(chan struct{})
+	go func() { _ = s.Serve(l); close(served) }()
+	a, b := net.Pipe()
+	peer := NewTCPPeer(b)
+	l.Push(&AddrConn{Conn: a, Local: memAddr("server"), Remote: memAddr(remote)})
+	stop := func() {
+		s.Stop()
+		peer.Close()
+		<-served
+	}
+	select {
+	case cc := <-ch:
+		return cc, peer, stop, nil
+	case <-time.After(time.Second):
+		stop()
+		return nil, nil, nil, errors.New("the server did not accept the connection")
+	}
+}
+
+type memAddr string
+
+func (a memAddr) Network() string { return "mem" }
+func (a memAddr) String() string  { return string(a) }
